@@ -1106,4 +1106,120 @@ theorem findService_eq {files ds : List DFile} (hsym : (symbols files).Nodup) (h
   rw [find_unique _ sv (List.mem_flatMap.2 ⟨f, hf, hsv⟩) (fun a ha => hall a (hmem a ha)),
     find_unique _ sv (List.mem_flatMap.2 ⟨f, hsub f hf, hsv⟩) hall]
 
+/-! ### parsing the registry into the description -/
+
+theorem mem_insertBy {α : Type} (le : α → α → Bool) (a : α) : ∀ (l : List α) (x : α),
+    x ∈ insertBy le a l ↔ (x = a ∨ x ∈ l) := by
+  intro l
+  induction l with
+  | nil => intro x; simp [insertBy]
+  | cons b r ih =>
+    intro x
+    unfold insertBy
+    split
+    · simp
+    · simp only [List.mem_cons, ih]
+      constructor
+      · rintro (h | h | h)
+        · exact Or.inr (Or.inl h)
+        · exact Or.inl h
+        · exact Or.inr (Or.inr h)
+      · rintro (h | h | h)
+        · exact Or.inr (Or.inl h)
+        · exact Or.inl h
+        · exact Or.inr (Or.inr h)
+
+theorem mem_sortBy {α : Type} (le : α → α → Bool) : ∀ (l : List α) (x : α), x ∈ sortBy le l ↔ x ∈ l := by
+  intro l
+  induction l with
+  | nil => intro x; simp [sortBy]
+  | cons a r ih => intro x; simp [sortBy, mem_insertBy, ih]
+
+theorem findService_name {files : List DFile} {n : Name} {sd : DService}
+    (h : findService files n = some sd) : sd.name = n := by
+  unfold findService at h
+  have := List.find?_some h
+  simpa using this
+
+theorem parseTarget_eq {reg files : List DFile} {ns : List Name}
+    (h : ∀ n ∈ ns, findService reg n = findService files n) :
+    parseTarget reg ns = ns.map (contractOf files) := by
+  unfold parseTarget
+  apply List.map_congr_left
+  intro n hn
+  rw [h n hn]
+  unfold contractOf
+  cases hf : findService files n with
+  | none => rfl
+  | some sd =>
+    have := findService_name hf
+    simp only [parseService]
+    rw [this]
+
+/-- every service of a parsed description is the registry's definition, or name-only when the
+    registry does not define it -/
+theorem parseTarget_exact (reg : List DFile) (ns : List Name) :
+    parseTarget reg ns = ns.map (contractOf reg) :=
+  parseTarget_eq (fun _ _ => rfl)
+
+/-! ### completeness: what a successful conversation with a conformant target amounts to -/
+
+/-- the conversation reproduced the target's contract -/
+structure Complete (cfg : Cfg) (srv : Server) (ok : StreamOk) : Prop where
+  names : ok.names = listServiceNames cfg srv.listed
+  own : ∀ f ∈ ok.files, f ∈ srv.files
+  nodup : (fileNames ok.files).Nodup
+  closed : Closed ok.files
+  registry : newFiles ok.files = .ok ok.files
+  exact : ∀ ns, (∀ n ∈ ns, n ∈ ok.names) → parseTarget ok.files ns = ns.map (contractOf srv.files)
+
+theorem complete_of_ok {cfg : Cfg} {srv : Server} {pol : Policy} {sched : Sched} (hwf : WF cfg srv)
+    (hc : Conformant srv pol) (hno : cfg.onlyServices = false) {h : History} {ok : StreamOk}
+    (he : runStream (dedupFiles []) cfg pol sched = (h, .ok ok)) : Complete cfg srv ok := by
+  rcases runStream_safe cfg pol sched (fun f => f ∈ srv.files) hc.honest h ok hno he with
+    ⟨raw, hraw, hnames, hcl, hnd, hown, hsym⟩
+  have hraw' : raw = srv.listed := by
+    have := hc.list []
+    rw [hraw] at this
+    injection this
+  subst hraw'
+  refine ⟨hnames, hown, hnd, hcl, newFiles_ok hwf.toWFFiles hown hnd hcl, ?_⟩
+  intro ns hns
+  apply parseTarget_eq
+  intro n hn
+  have hn' := hns n hn
+  rcases hsym n hn' with ⟨h'', fs, e1, e2⟩
+  rw [hnames] at hn'
+  rcases hc.symbol h'' n (hwf.defined n (wanted_of_mem_names hn')) with ⟨fs', e1', f, hf, hd⟩
+  rw [e1] at e1'
+  injection e1' with e1'
+  subst e1'
+  rcases mem_fileNames.1 (e2 f hf) with ⟨g, hg, hgn⟩
+  have : g = f := eq_of_name_eq hwf.nodup (hown g hg) (hc.honest h'' _ _ e1 f hf) hgn
+  subst this
+  exact findService_eq hwf.symbols hown hg hd
+
+theorem newFiles_eq {fs reg : List DFile} (h : newFiles fs = .ok reg) : reg = fs := by
+  unfold newFiles at h
+  repeat (split at h; · simp at h)
+  injection h with h; exact h.symm
+
+/-- the description delivered for a complete conversation: the target's contract for exactly the
+    wanted services — or nothing new when it equals what was delivered last -/
+theorem finish_complete {cfg : Cfg} {srv : Server} {ok : StreamOk} (hk : Complete cfg srv ok)
+    (last : Option Snapshot) :
+    (finish last ok = (last, .unchanged) ∧ last = some (snapshotOf ok)) ∨
+    finish last ok = (some (snapshotOf ok), .update
+      { services := (sortBy bytesLe (listServiceNames cfg srv.listed)).map (contractOf srv.files),
+        files := ok.files }) := by
+  unfold finish
+  by_cases hl : last = some (snapshotOf ok)
+  · left; simp [hl]
+  · right
+    simp only [hl, ↓reduceIte, hk.registry]
+    have : parseTarget ok.files (snapshotOf ok).services = (snapshotOf ok).services.map (contractOf srv.files) :=
+      hk.exact _ (by intro n hn; exact (mem_sortBy bytesLe ok.names n).1 hn)
+    rw [this]
+    simp [snapshotOf, hk.names]
+
 end GB.C05
